@@ -150,7 +150,8 @@ structure MatchP (j : Nat) (s : Sys (S1 × S2) (List (CFr L1 L2)) β γ) (s1 : S
 
 /-- the hypotheses of the assume–guarantee theorem for `plug` -/
 structure HypP (M1 : Machine S1 L1 α β) (M2 : Machine S2 L2 β γ) : Prop where
-  noSub1 : ∀ st l i st' l', M1.step st l ≠ .call (.subSrc i) st' l'
+  /-- `M₁` is a closed source: none of its upstreams is ever subscribed to -/
+  noUp1 : ComposeFull.NoUpstream M1
   noApp1 : ∀ st l b st' l', M1.step st l ≠ .call (.app b) st' l'
   sync : M2.shape.lateGreet = true ∨ ∀ s, SReach M1 s → s.stack = [] → s.g.ph.sinkPh 0 ≠ .subscribed
   safe1 : ∀ s, SReach M1 s → BasicSafe s
@@ -309,7 +310,10 @@ theorem step_lo (H : HypP M1 M2) {st1 : S1} {st2 : S2} {l : L1} {rest : List (CF
           intro u l hm
           have : NotPre (g1.ph.sinkPh 0) := ⟨by rw [hlive]; decide, by rw [hlive]; decide⟩
           exact this.onOut _
-    | subSrc i => exact absurd hst (H.noSub1 _ _ _ _ _)
+    | subSrc i =>
+      obtain ⟨_, _, heq⟩ := onOut_subSrc_ok _ _ hv
+      have := H.noUp1 _ hr1' i
+      simp [heq] at this
     | srcUp i u =>
       obtain ⟨hl, _⟩ := onOut_srcUp_ok _ _ _ hv
       rw [hgh.src1 i] at hl; cases hl
@@ -597,5 +601,429 @@ theorem plug_inv_tr (H : HypP M1 M2) (j : Nat) :
       | runHi hrel => exact step_hi H hr1 hr2 hrel hgh hup htr hop
 
 end Steps
+
+/-! ## Part 3: consequences -/
+section Consequences
+variable {S1 L1 S2 L2 α β γ : Type} {M1 : Machine S1 L1 α β} {M2 : Machine S2 L2 β γ}
+
+/-- **phase-level safety of `plug`** (C01–C03, protocol part of C04, C17) -/
+theorem plug_basicSafe (H : HypP M1 M2) (j : Nat) : ∀ s, SReach (plug j M1 M2) s → BasicSafe s := by
+  intro s hs
+  obtain ⟨s1, s2, _, _, hm, _⟩ := plug_inv_tr H j s hs
+  exact ⟨hm.gh.v, hm.p⟩
+
+theorem matchP_turns {j : Nat} {s : Sys (S1 × S2) (List (CFr L1 L2)) β γ} {s1 : Sys S1 L1 α β} {s2 : Sys S2 L2 β γ}
+    (hm : MatchP j s s1 s2) (ht : EnvTurn s) : EnvTurn s1 ∧ EnvTurn s2 := by
+  obtain ⟨st, stk, g, tr, p⟩ := s
+  obtain ⟨st1, k1, g1, tr1, p1⟩ := s1
+  obtain ⟨st2, k2, g2, tr2, p2⟩ := s2
+  obtain ⟨_, _, hp1, hp2, _, hsm, _⟩ := hm
+  simp only at hp1 hp2 hsm
+  cases hsm with
+  | turn hrel => exact ⟨⟨hp1, hrel.turns.1⟩, ⟨hp2, hrel.turns.2⟩⟩
+  | runLo hrel => have := ht.2; simp [ctxOf] at this
+  | runHi hrel => have := ht.2; simp [ctxOf] at this
+
+/-- the composite's top level, projected -/
+theorem matchP_top {j : Nat} {s : Sys (S1 × S2) (List (CFr L1 L2)) β γ} {s1 : Sys S1 L1 α β} {s2 : Sys S2 L2 β γ}
+    (hm : MatchP j s s1 s2) (hstk : s.stack = []) : s1.stack = [] ∧ s2.stack = [] := by
+  obtain ⟨st, stk, g, tr, p⟩ := s
+  obtain ⟨st1, k1, g1, tr1, p1⟩ := s1
+  obtain ⟨st2, k2, g2, tr2, p2⟩ := s2
+  obtain ⟨_, _, _, _, _, hsm, _⟩ := hm
+  simp only at hstk hsm ⊢
+  subst hstk
+  cases hsm with
+  | turn hrel => cases hrel; exact ⟨rfl, rfl⟩
+
+/-! ### one-sided views restricted to a slot -/
+
+theorem sentS_srcNe {α : Type} (i j : Nat) (hij : i ≠ j) (l : List (SrcEv α)) : sentS i (srcNe j l) = sentS i l := by
+  induction l with
+  | nil => rfl
+  | cons e t ih =>
+    cases e with
+    | down i' d =>
+      by_cases h : i' = j
+      · subst h
+        have : i' ≠ i := Ne.symm hij
+        cases d <;> simp [srcNe, srcIdx, sentS, this] at ih ⊢ <;> exact ih
+      · cases d <;> simp [srcNe, srcIdx, sentS, h] at ih ⊢ <;> simp [ih]
+    | greet i' => by_cases h : i' = j <;> simp [srcNe, srcIdx, sentS, h] at ih ⊢ <;> exact ih
+    | sub i' => by_cases h : i' = j <;> simp [srcNe, srcIdx, sentS, h] at ih ⊢ <;> exact ih
+    | up i' u => by_cases h : i' = j <;> simp [srcNe, srcIdx, sentS, h] at ih ⊢ <;> exact ih
+
+theorem sentS_srcEq {α : Type} (j : Nat) (l : List (SrcEv α)) : sentS j (srcEq j l) = sentS j l := by
+  induction l with
+  | nil => rfl
+  | cons e t ih =>
+    cases e with
+    | down i' d =>
+      by_cases h : i' = j
+      · cases d <;> simp [srcEq, srcIdx, sentS, h] at ih ⊢ <;> simp [ih]
+      · cases d <;> simp [srcEq, srcIdx, sentS, h] at ih ⊢ <;> exact ih
+    | greet i' => by_cases h : i' = j <;> simp [srcEq, srcIdx, sentS, h] at ih ⊢ <;> exact ih
+    | sub i' => by_cases h : i' = j <;> simp [srcEq, srcIdx, sentS, h] at ih ⊢ <;> exact ih
+    | up i' u => by_cases h : i' = j <;> simp [srcEq, srcIdx, sentS, h] at ih ⊢ <;> exact ih
+
+theorem recvS_dualJ {β : Type} (j : Nat) (l : List (SinkEv β)) : recvS 0 l = sentS j (dualJ j l) := by
+  induction l with
+  | nil => rfl
+  | cons e t ih =>
+    cases e with
+    | down k d =>
+      by_cases h : k = 0
+      · cases d <;> simp [recvS, dualJ, dual1, sentS, h, ih]
+      · cases d <;> simp [recvS, dualJ, dual1, h, ih]
+    | subscribe k => by_cases h : k = 0 <;> simp [recvS, dualJ, dual1, sentS, h, ih]
+    | up k u => by_cases h : k = 0 <;> simp [recvS, dualJ, dual1, sentS, h, ih]
+    | greet k => by_cases h : k = 0 <;> simp [recvS, dualJ, dual1, sentS, h, ih]
+    | app b => simp [recvS, dualJ, dual1, ih]
+
+/-- what the projection preserves -/
+structure ProjP (j : Nat) (s : Sys (S1 × S2) (List (CFr L1 L2)) β γ) (s1 : Sys S1 L1 α β) (s2 : Sys S2 L2 β γ) : Prop where
+  m : MatchP j s s1 s2
+  t : TrRelP j s.tr s1.tr s2.tr
+  /-- what the composite delivers to its sinks is what `M₂` delivers; likewise terminals, closure applications, Pulls received -/
+  recv : ∀ k, recvData k s.tr = recvData k s2.tr
+  fin : ∀ k, finalsTo k s.tr = finalsTo k s2.tr
+  app : applied s.tr = applied s2.tr
+  pullsIn : ∀ k, pullsIn k s.tr = pullsIn k s2.tr
+  /-- what the composite receives from an external upstream `i ≠ j` is what `M₂` receives from it -/
+  sent : ∀ i, i ≠ j → sentData i s.tr = sentData i s2.tr
+  /-- the plugged slot: what `M₁` delivered to its sink is what `M₂` received from upstream `j` -/
+  ifc : recvData 0 s1.tr = sentData j s2.tr
+  turn : EnvTurn s → EnvTurn s1 ∧ EnvTurn s2
+
+theorem ProjP.of {j : Nat} {s : Sys (S1 × S2) (List (CFr L1 L2)) β γ} {s1 : Sys S1 L1 α β} {s2 : Sys S2 L2 β γ}
+    (hm : MatchP j s s1 s2) (ht : TrRelP j s.tr s1.tr s2.tr) : ProjP j s s1 s2 where
+  m := hm
+  t := ht
+  recv k := by rw [recvData_eq, recvData_eq, ht.sink]
+  fin k := by rw [finalsTo_eq, finalsTo_eq, ht.sink]
+  app := by rw [applied_eq, applied_eq, ht.sink]
+  pullsIn k := by rw [pullsIn_eq, pullsIn_eq, ht.sink]
+  sent i hij := by rw [sentData_eq, sentData_eq, ht.src, sentS_srcNe i j hij]
+  ifc := by rw [recvData_eq, sentData_eq, recvS_dualJ j, ht.ifc, sentS_srcEq]
+  turn := matchP_turns hm
+
+theorem plug_proj (H : HypP M1 M2) (j : Nat) :
+    ∀ s, SReach (plug j M1 M2) s → ∃ s1 s2, SReach M1 s1 ∧ SReach M2 s2 ∧ ProjP j s s1 s2 := by
+  intro s hs
+  obtain ⟨s1, s2, hr1, hr2, hm, ht⟩ := plug_inv_tr H j s hs
+  exact ⟨s1, s2, hr1, hr2, .of hm ht⟩
+
+/-! ### roles: `plug j M₁ M₂` as the head of further stages -/
+
+theorem plug_noApp (j : Nat) (h : ∀ st l b st' l', M2.step st l ≠ .call (.app b) st' l') :
+    ∀ st l b st' l', (plug j M1 M2).step st l ≠ .call (.app b) st' l' := by
+  intro st l b st' l'
+  cases l with
+  | nil => simp [plug]
+  | cons c rest =>
+    cases c with
+    | lo l1 =>
+      simp only [plug]
+      cases h1 : M1.step st.1 l1 with
+      | tau => simp
+      | ret => simp only []; split <;> simp
+      | panic => simp
+      | call o s l' =>
+        cases o with
+        | greet k => cases k <;> simp
+        | down k d => cases k <;> simp
+        | subSrc i => simp
+        | srcUp i u => simp
+        | app b' => simp
+    | hi l2 =>
+      simp only [plug]
+      cases h2 : M2.step st.2 l2 with
+      | tau => simp
+      | ret => simp only []; split <;> simp
+      | panic => simp
+      | call o s l' =>
+        cases o with
+        | greet k => simp
+        | down k d => simp
+        | subSrc i => simp only []; split <;> simp
+        | srcUp i u => simp only []; split <;> simp
+        | app b' => exact absurd h2 (h _ _ _ _ _)
+
+/-- if `M₂` can head a pipeline, so can `plug j M₁ M₂` -/
+theorem UpSide.plug (H : HypP M1 M2) (j : Nat) (U2 : UpSide M2) : UpSide (Cb.plug j M1 M2) := by
+  refine ⟨plug_noApp j U2.noApp, ?_, plug_basicSafe H j⟩
+  intro s hs hstk
+  obtain ⟨s1, s2, _, hr2, hm, _⟩ := plug_inv_tr H j s hs
+  rw [hm.gh.sink 0]
+  exact U2.sync s2 hr2 (matchP_top hm hstk).2
+
+/-- only the upstream slots in `P` are ever used -/
+def OnlySlots {St Loc α β : Type} (P : Nat → Prop) (M : Machine St Loc α β) : Prop :=
+  ∀ s, SReach M s → ∀ i, ¬ P i → s.g.ph.srcPh i = .idle
+
+theorem OnlySlots.plug {P : Nat → Prop} (H : HypP M1 M2) (j : Nat) (h : OnlySlots P M2) :
+    OnlySlots (fun i => P i ∧ i ≠ j) (Cb.plug j M1 M2) := by
+  intro s hs i hi
+  obtain ⟨s1, s2, _, hr2, hm, _⟩ := plug_inv_tr H j s hs
+  by_cases hij : i = j
+  · subst hij; exact hm.gh.srcj
+  · rw [hm.gh.src i hij]
+    exact h s2 hr2 i (fun hp => hi ⟨hp, hij⟩)
+
+theorem OnlySlots.noUpstream {St Loc α β : Type} {P : Nat → Prop} {M : Machine St Loc α β} (h : OnlySlots P M)
+    (hP : ∀ i, ¬ P i) : ComposeFull.NoUpstream M := fun s hs i => h s hs i (hP i)
+
+/-- the hypotheses of `plug`, from the roles: a closed head-capable source in a slot of a phase-safe operator -/
+theorem hypP_of (U1 : UpSide M1) (hN : ComposeFull.NoUpstream M1) (h2 : ∀ s, SReach M2 s → BasicSafe s) : HypP M1 M2 :=
+  ⟨hN, U1.noApp, .inr U1.sync, U1.safe, h2⟩
+
+end Consequences
+
+/-! ## Part 4: `concat!` as the operator being plugged into -/
+namespace ConcatK
+variable {α : Type}
+
+abbrev Fm (α : Type) := Frame (Concat.Loc α) α
+
+def Fr (stk : List (Fm α)) : Prop := ∀ f ∈ stk, ∀ o l, f = Frame.wait o l → l = Concat.Loc.done
+
+def TopA (n : Nat) (st : Concat.St) : List (Fm α) → Prop
+  | .run .t0 :: _ => st.i < n
+  | .run .next :: _ => st.i ≤ n
+  | _ => True
+
+def K (n : Nat) (s : Sys Concat.St (Concat.Loc α) α α) : Prop :=
+  s.panicked = none → (∀ i, n ≤ i → s.g.ph.srcPh i = .idle) ∧ Fr s.stack ∧ TopA n s.st s.stack
+
+macro "cnoway" h:ident : tactic =>
+  `(tactic| first
+      | (simp [Concat.machine, Concat.step] at $h:ident; done)
+      | (simp [Concat.machine, Concat.step] at $h:ident; split at $h:ident <;> simp at $h:ident; done))
+
+theorem fr_run {l : Concat.Loc α} {f : Fm α} {stk : List (Fm α)} (h : Fr (f :: stk)) : Fr (.run l :: stk) := by
+  intro f' hf o l' he
+  rcases List.mem_cons.1 hf with rfl | hf
+  · cases he
+  · exact h f' (List.mem_cons_of_mem _ hf) o l' he
+
+theorem fr_wait {o : Out α} {f : Fm α} {stk : List (Fm α)} (h : Fr (f :: stk)) : Fr (.wait o .done :: stk) := by
+  intro f' hf o' l' he
+  rcases List.mem_cons.1 hf with rfl | hf
+  · cases he; rfl
+  · exact h f' (List.mem_cons_of_mem _ hf) o' l' he
+
+theorem fr_tail {f : Fm α} {stk : List (Fm α)} (h : Fr (f :: stk)) : Fr stk :=
+  fun f' hf' => h f' (List.mem_cons_of_mem _ hf')
+
+theorem fr_push {l : Concat.Loc α} {stk : List (Fm α)} (h : Fr stk) : Fr (.run l :: stk) := by
+  intro f' hf o l' he
+  rcases List.mem_cons.1 hf with rfl | hf
+  · cases he
+  · exact h f' hf o l' he
+
+theorem K_reach (n : Nat) (hn : 0 < n) : ∀ s, SReach (Concat.machine α n) s → K n s := by
+  apply reach_ind
+  · intro _; exact ⟨fun i _ => by simp [Sys.init], fun f hf => (by cases hf), trivial⟩
+  · intro a b ha ih hstep
+    cases hstep with
+    | @tau st l stk g tr s' l' hst =>
+      intro _
+      obtain ⟨h1, h2, h3⟩ := ih rfl
+      simp only at h1 h2 h3 ⊢
+      refine ⟨h1, fr_run h2, ?_⟩
+      cases l with
+      | t0 =>
+        simp [Concat.machine, Concat.step] at hst
+        obtain ⟨rfl, rfl⟩ := hst
+        simp only [TopA] at h3 ⊢
+        show st.i + 1 ≤ n
+        omega
+      | g0 j' => simp [Concat.machine, Concat.step] at hst; obtain ⟨rfl, rfl⟩ := hst; trivial
+      | g1 => simp [Concat.machine, Concat.step] at hst; split at hst <;> simp at hst; obtain ⟨rfl, rfl⟩ := hst; trivial
+      | g2 => simp [Concat.machine, Concat.step] at hst; split at hst <;> simp at hst; obtain ⟨rfl, rfl⟩ := hst; trivial
+      | p0 => simp [Concat.machine, Concat.step] at hst; obtain ⟨rfl, rfl⟩ := hst; trivial
+      | done => cnoway hst
+      | next => cnoway hst
+      | g3 => cnoway hst
+      | fwd d => cnoway hst
+      | u1 u => cnoway hst
+    | @call st l stk g tr o s' l' hst =>
+      intro _
+      obtain ⟨h1, h2, h3⟩ := ih rfl
+      simp only at h1 h2 h3 ⊢
+      have keep : (∀ i, n ≤ i → o ≠ .subSrc i) → ∀ i, n ≤ i → (g.onOut (Concat.machine α n).shape o).ph.srcPh i = .idle := by
+        intro ho i hi
+        simp only [onOut_ph]
+        exact ComposeFull.onOut_srcPh_idle_ne _ _ _ (h1 i hi) (ho i hi)
+      cases l with
+      | next =>
+        by_cases hin : st.i = n
+        · simp [Concat.machine, Concat.step, hin] at hst
+          obtain ⟨rfl, rfl, rfl⟩ := hst
+          exact ⟨keep (fun i _ h => by cases h), fr_wait h2, trivial⟩
+        · have hlt : st.i < n := by simp only [TopA] at h3; omega
+          simp [Concat.machine, Concat.step, hin] at hst
+          obtain ⟨rfl, rfl, rfl⟩ := hst
+          refine ⟨keep (fun i hi h => ?_), fr_wait h2, trivial⟩
+          cases h
+          omega
+      | g1 =>
+        simp [Concat.machine, Concat.step] at hst
+        split at hst <;> simp at hst
+        obtain ⟨rfl, rfl, rfl⟩ := hst
+        exact ⟨keep (fun i _ h => by cases h), fr_wait h2, trivial⟩
+      | g3 =>
+        simp [Concat.machine, Concat.step] at hst
+        split at hst <;> simp at hst
+        obtain ⟨rfl, rfl, rfl⟩ := hst
+        exact ⟨keep (fun i _ h => by cases h), fr_wait h2, trivial⟩
+      | fwd d =>
+        simp [Concat.machine, Concat.step] at hst
+        obtain ⟨rfl, rfl, rfl⟩ := hst
+        exact ⟨keep (fun i _ h => by cases h), fr_wait h2, trivial⟩
+      | u1 u =>
+        simp [Concat.machine, Concat.step] at hst
+        split at hst <;> simp at hst
+        obtain ⟨rfl, rfl, rfl⟩ := hst
+        exact ⟨keep (fun i _ h => by cases h), fr_wait h2, trivial⟩
+      | done => cnoway hst
+      | g0 j' => cnoway hst
+      | g2 => cnoway hst
+      | t0 => cnoway hst
+      | p0 => cnoway hst
+    | @ret st l stk g tr hst =>
+      intro _
+      obtain ⟨h1, h2, h3⟩ := ih rfl
+      simp only at h1 h2 h3 ⊢
+      have hw := pop_turn _ ha
+      refine ⟨by simpa using h1, fr_tail h2, ?_⟩
+      cases stk with
+      | nil => trivial
+      | cons f r => obtain ⟨o, l0, rfl⟩ := hw f (List.mem_cons_self); trivial
+    | panic hst => intro hp; cases hp
+  · intro a b m ha ih hstep
+    cases hstep with
+    | @call st stk g tr c i hc hl =>
+      intro _
+      obtain ⟨h1, h2, _⟩ := ih rfl
+      simp only at h1 h2 ⊢
+      obtain ⟨_, _, _, hm⟩ := inv_at_turn (Concat.machine α n) (Concat.Inv n) (Concat.inv_init n)
+        (fun s hi => (Concat.inv_turn n s hi).1) (Concat.inv_step n hn) ha ⟨rfl, by simp [hc]⟩
+      simp only at hm
+      simp only [onIn_ph]
+      refine ⟨?_, fr_push h2, ?_⟩
+      · intro i' hi'
+        cases i with
+        | subscribe k => simpa [Ph.onIn] using h1 i' hi'
+        | sinkUp k u => cases u <;> simpa [Ph.onIn] using h1 i' hi'
+        | srcGreet k =>
+          have hk : k < n := by
+            have := legal_srcGreet hl
+            by_cases hk : k < n
+            · exact hk
+            · rw [h1 k (by omega)] at this; cases this
+          have : i' ≠ k := by omega
+          simpa [Ph.onIn, this] using h1 i' hi'
+        | srcDown k d =>
+          have hk : k < n := by
+            have := legal_srcDown hl
+            by_cases hk : k < n
+            · exact hk
+            · rw [h1 k (by omega)] at this; cases this
+          have : i' ≠ k := by omega
+          cases d <;> simpa [Ph.onIn, this] using h1 i' hi'
+      · cases i with
+        | subscribe k =>
+          have hidle := legal_subscribe hl
+          have hk : k = 0 := by
+            simp only [legalIn, Bool.and_eq_true, beq_iff_eq, Concat.machine, Bool.or_false] at hl; exact hl.2
+          subst hk
+          have : st.i = 0 := by
+            cases hm with
+            | idle _ _ h3 _ => exact h3
+            | waiting _ _ _ _ h5 h6 _ =>
+              by_cases h0 : st.i = 0
+              · exact h0
+              · rw [h6 h0] at hidle; cases hidle
+            | live _ _ h3 => rw [h3] at hidle; cases hidle
+            | over h1' => rcases h1' with h | h <;> rw [h] at hidle <;> cases hidle
+          simp [TopA, Concat.machine, Concat.enter, this]
+        | sinkUp k u => cases u <;> simp [TopA, Concat.machine, Concat.enter]
+        | srcGreet k => simp [TopA, Concat.machine, Concat.enter]
+        | srcDown k d =>
+          cases d with
+          | data x => simp [TopA, Concat.machine, Concat.enter]
+          | err e => simp [TopA, Concat.machine, Concat.enter]
+          | term =>
+            have hlive := legal_srcDown hl
+            have : st.i < n := by
+              cases hm with
+              | live h1' => exact h1'
+              | waiting h1' => exact h1'
+              | idle _ h2' => rw [h2' k] at hlive; cases hlive
+              | over _ h2' => exact absurd hlive (h2' k).1
+            simpa [TopA, Concat.machine, Concat.enter] using this
+    | @ret st stk g tr o l hl =>
+      intro _
+      obtain ⟨h1, h2, _⟩ := ih rfl
+      simp only at h1 h2 ⊢
+      have : l = .done := h2 _ (List.mem_cons_self) o l rfl
+      subst this
+      exact ⟨h1, fr_run h2, trivial⟩
+
+end ConcatK
+
+/-- `concat!(s_0, …, s_{n-1})` only ever uses the upstream slots `0 … n-1` -/
+theorem Concat.onlySlots {α : Type} (n : Nat) (hn : 0 < n) : OnlySlots (· < n) (Concat.machine α n) := by
+  intro s hs i hi
+  exact (ConcatK.K_reach n hn s hs (Concat.concat_basicSafe n hn s hs).2).1 i (by omega)
+
+
+/-! ## Part 5: `concat!(A, B)` of two closed sources, and a worked example -/
+section Worked
+open ComposeFull
+
+/-- `concat!(A, B)` with both members plugged: a closed source that can head a pipeline, and is fully safe -/
+theorem concat2_plugged {SA LA SB LB αA αB β : Type} {A : Machine SA LA αA β} {B : Machine SB LB αB β}
+    (UA : UpSide A) (NA : NoUpstream A) (UB : UpSide B) (NB : NoUpstream B) :
+    UpSide (plug 0 A (plug 1 B (Concat.machine β 2))) ∧ NoUpstream (plug 0 A (plug 1 B (Concat.machine β 2))) ∧
+      ∀ s, SReach (plug 0 A (plug 1 B (Concat.machine β 2))) s → Safe s := by
+  have HB : HypP B (Concat.machine β 2) := hypP_of UB NB (Concat.concat_basicSafe 2 (by decide))
+  have UP : UpSide (plug 1 B (Concat.machine β 2)) := UpSide.plug HB 1 (Concat.upSide 2 (by decide))
+  have HA : HypP A (plug 1 B (Concat.machine β 2)) := hypP_of UA NA (plug_basicSafe HB 1)
+  have UQ := UpSide.plug HA 0 UP
+  have NQ : NoUpstream (plug 0 A (plug 1 B (Concat.machine β 2))) :=
+    (OnlySlots.plug HA 0 (OnlySlots.plug HB 1 (Concat.onlySlots 2 (by decide)))).noUpstream (fun i h => by omega)
+  exact ⟨UQ, NQ, safe_of_noUpstream NQ UQ.safe⟩
+
+/-- `pipe!(concat!(from_iter(a), pipe!(from_iter(b), map f)), take n, for_each g)`: phase-level safe at every reachable
+configuration, and fully safe (C01–C05, C17) -/
+theorem concat_fromIter_pipe_take_forEach {ιa ιb α β : Type} (nexta : ιa → Option (β × ιa)) (a0 : ιa)
+    (nextb : ιb → Option (α × ιb)) (b0 : ιb) (f : α → β) (n : Nat) :
+    ∀ s, SReach (compose (compose
+        (plug 0 (FromIter.machine Unit nexta a0)
+          (plug 1 (compose (FromIter.machine Unit nextb b0) (Relay.machine (Relay.map f))) (Concat.machine β 2)))
+        (Take.machine β n)) (ForEach.machine β)) s → BasicSafe s ∧ Safe s ∧ SafeFor 4 s ∧ SafeFor 5 s := by
+  have hmap := Relay.pipeable (Relay.map f) (fun _ _ _ => by simp [Relay.map])
+  have UB : UpSide (compose (FromIter.machine Unit nextb b0) (Relay.machine (Relay.map f))) :=
+    (FromIter.upSide nextb b0).compose' hmap
+  have NB : NoUpstream (compose (FromIter.machine Unit nextb b0) (Relay.machine (Relay.map f))) :=
+    (FromIter.noUpstream nextb b0).compose (hyp_of_roles (FromIter.upSide nextb b0) hmap.downSide)
+  obtain ⟨UQ, _, _⟩ := concat2_plugged (FromIter.upSide nexta a0) (FromIter.noUpstream nexta a0) UB NB
+  intro s hs
+  have := closed_pipeline_full UQ (Take.pipeable n) s hs
+  exact ⟨this.1.basic, this⟩
+
+end Worked
+
 end PlugSafe
 end Cb
+
+#print axioms Cb.PlugSafe.plug_inv_tr
+#print axioms Cb.PlugSafe.plug_basicSafe
+#print axioms Cb.PlugSafe.plug_proj
+#print axioms Cb.PlugSafe.UpSide.plug
+#print axioms Cb.PlugSafe.OnlySlots.plug
+#print axioms Cb.PlugSafe.Concat.onlySlots
+#print axioms Cb.PlugSafe.concat2_plugged
+#print axioms Cb.PlugSafe.concat_fromIter_pipe_take_forEach
